@@ -283,7 +283,7 @@ def perturb(rng, es, n):
                 es.remove(e)
                 es.append(ne)
                 return es
-    if r < 0.85:
+    if r < 0.85 and es:
         e = rng.choice(es)  # change predicate or a constant
         ne = (e[0], Q if e[1] == P else P, e[2])
         if ne not in es:
